@@ -20,7 +20,7 @@
         unstack.back_key_function (all blocks along `axis`), _unstack_chunk (m-th yielded slice)             ↦ `unstackKeys`, `unstackPos`
         reshape_chunks.back_key_function (ravel over out numblocks, unravel over in numblocks)               ↦ `reshapeKey`
     cubed/utils.py offset_to_block_id / block_id_to_offset (block ids through the virtual offsets array)      ↦ `ArraySem.unravel` / `ArraySem.ravel`
-    zarr chunk write `chunk_array[sel] = value` (NumPy broadcasting of a too-small block; modelled)           ↦ `bcastIndex`
+    zarr chunk write `chunk_array[sel] = value[out_sel]` (too-large block cut, size-1 block broadcast; modelled)           ↦ `bcastIndex`
 
   Core Lean only.
 -/
@@ -243,13 +243,15 @@ def concatKeys (lens : List Nat) (axis : Nat) (oshape ochunks : List Nat) (inChu
 def stackKey (axis : Nat) (out : List Nat) : Option (Nat × List Nat) :=
   (out[axis]?).map (fun k => (k, eraseAt axis out))
 
-/-- NumPy broadcasting on chunk write `region[...] = value`: `value` has shape `vshape`, the region
-`rshape` (same rank); element `js` of the region is read from `value` at the broadcast index, and the write
-raises when a dimension is neither equal nor 1. -/
+/-- zarr chunk write `region[...] = value` as the codec pipeline does it (`chunk_value = value[out_selection]`,
+then `chunk_array[chunk_selection] = chunk_value`): `value` has shape `vshape`, the region `rshape` (same
+rank).  A dimension of `value` at least as long as the region is cut to the region (silently), a dimension
+of length 1 is broadcast, anything else raises.  Element `js` of the region is read from `value` at the
+returned index. -/
 def bcastIndex : List Nat → List Nat → List Nat → Option (List Nat)
   | [], [], [] => some []
   | v :: vs, r :: rs, j :: js =>
-    if v = r then (bcastIndex vs rs js).map (j :: ·)
+    if r ≤ v then (bcastIndex vs rs js).map (j :: ·)
     else if v = 1 then (bcastIndex vs rs js).map (0 :: ·)
     else none
   | _, _, _ => none
